@@ -77,6 +77,8 @@ func stringValues() []string {
 		"0000-01-01T00:00:00Z", "10000-01-01T00:00:00Z", "2023-05-01T10:00:00.123456789Z", "2023-05-01t10:00:00z", "\t2023-05-01T10:00:00Z",
 		"https://h1/a", "/rel/path", "//h2/x", "https://h1/a b", "https://h1/%zz", "https://h1/a\x01b", "http://[::1", "mailto:x@y", "https://h1:port/", ":", "https://user:pw@h1/",
 		"text/html", "text/html; charset=utf-8", "TEXT/HTML", "text", "text/", "/html", "text/html garbage", " text/html", "text/plain", "text/gemini", "text/markdown", "image/png", "a/b/c", "te xt/html", "application/ld+json; profile=\"x\"", "text/html,application/xhtml+xml", "image,text/png", "a/b,c", "text/html;q=1,*/*", "a-b/c.d+e", "a*b/c", "a/b c", "a\u00e9/b", "image/png\u017f", "text/\u017f", "\u212a/html", "te\u212at/html", "TEXT/\u0130", "text/\u0131",
+		// media types whose parameters are written on a second line (the line feed survives scrubbing)
+		"text/markdown;\n charset=utf-8", "text/html\n", "text/html;\r\n charset=utf-8", "text/plain\nx", "text\n/html", "\ntext/html", "image/png; a=1\n; b=2\n",
 	}
 	for _, s := range raw {
 		out = append(out, jsonStr(s))
